@@ -1244,3 +1244,58 @@ _dispatch_event_loop_drain_timers(dispatch_timer_heap_t dth, uint32_t count)
 		 */
 	} while (unlikely(dth[0].dth_dirty_bits));
 }
+
+#if defined(DISPATCH_VERIF) && DISPATCH_VERIF
+#pragma mark -
+#pragma mark verification shim: timer heap
+
+/*
+ * Verification shim (guarded, add-only): thin non-static wrappers around the
+ * static timer heap primitives above, so that a verification harness linked
+ * statically can drive a private struct dispatch_timer_heap_s through
+ * arbitrary insert/remove/update sequences and observe every slot.
+ * Nothing in the library calls these.
+ */
+void _dispatch_verif_timer_heap_insert(dispatch_timer_heap_t dth,
+		dispatch_timer_source_refs_t dt);
+void _dispatch_verif_timer_heap_remove(dispatch_timer_heap_t dth,
+		dispatch_timer_source_refs_t dt);
+void _dispatch_verif_timer_heap_update(dispatch_timer_heap_t dth,
+		dispatch_timer_source_refs_t dt);
+dispatch_timer_source_refs_t _dispatch_verif_timer_heap_slot(
+		dispatch_timer_heap_t dth, uint32_t idx);
+uint32_t _dispatch_verif_timer_heap_capacity(uint32_t segments);
+
+void
+_dispatch_verif_timer_heap_insert(dispatch_timer_heap_t dth,
+		dispatch_timer_source_refs_t dt)
+{
+	_dispatch_timer_heap_insert(dth, dt);
+}
+
+void
+_dispatch_verif_timer_heap_remove(dispatch_timer_heap_t dth,
+		dispatch_timer_source_refs_t dt)
+{
+	_dispatch_timer_heap_remove(dth, dt);
+}
+
+void
+_dispatch_verif_timer_heap_update(dispatch_timer_heap_t dth,
+		dispatch_timer_source_refs_t dt)
+{
+	_dispatch_timer_heap_update(dth, dt);
+}
+
+dispatch_timer_source_refs_t
+_dispatch_verif_timer_heap_slot(dispatch_timer_heap_t dth, uint32_t idx)
+{
+	return *_dispatch_timer_heap_get_slot(dth, idx);
+}
+
+uint32_t
+_dispatch_verif_timer_heap_capacity(uint32_t segments)
+{
+	return _dispatch_timer_heap_capacity(segments);
+}
+#endif // DISPATCH_VERIF
